@@ -31,11 +31,13 @@ KINDS = ['b', 'i', 'u', 'f', 'c', 'S', 'U', 'O', 'M', 'm']
 
 def setitem_oracle(bc, boolnd):
     def oracle(atom, st):
-        B = ('attr', SELF, '_broadcast')
-        if atom == T.mkcmp('is', B, T.CONST_NONE):
-            return False
-        if atom == B:
-            return bc
+        # the array's own broadcast flag, read from the array or from the copy that is written (the copy carries the same flag)
+        for recv in (SELF, ('call', ('attr', SELF, 'copy'), (), ())):
+            B = ('attr', recv, '_broadcast')
+            if atom == T.mkcmp('is', B, T.CONST_NONE):
+                return False
+            if atom == B:
+                return bc
         if atom[0] == 'call' and T.call_name(atom) == '_is_boolean_index_nd':
             return boolnd
         return None
@@ -48,11 +50,14 @@ def rule_setitem(ctx):
     fi = ctx.fn(BASES + 'AbstractDimArray._setitem')
     gi = ctx.fn(BASES + 'AbstractHasAxes._get_indices')
     for inplace, boolnd in itertools.product([False, True], [False, True]):
-        ev = run(ctx, fi, bind={'inplace': const(inplace), 'broadcast': T.CONST_NONE}, oracle=setitem_oracle(False, boolnd))
+        orc = setitem_oracle(False, boolnd)
+        ev = run(ctx, fi, bind={'inplace': const(inplace), 'broadcast': T.CONST_NONE}, oracle=orc)
         inst = 'inplace=%s, N-d boolean index=%s' % (inplace, boolnd)
         ok = True
         for p in ev.paths:
-            writers = [e for e in p.calls() if (T.call_name(e.a) or '').startswith('_setvalues_')]
+            # (a call made through `w = a if c else b; w(...)` is recorded once per alternative, under the alternative's own guard)
+            writers = [e for e in p.calls() if (T.call_name(e.a) or '').startswith('_setvalues_')
+                       and all(orc(a, None) in (None, pol) for a, pol in e.guards)]
             if p.kind != 'return' or len(writers) != 1:
                 ctx.violated('R1', fi, 'write path [%s]' % inst, 'expected exactly one _setvalues_* call on every path, found %d (%s)'
                              % (len(writers), p.kind), node=p.node)
@@ -155,8 +160,15 @@ def rule_writers(ctx):
                 stores = [e for e in p.events if e.kind in ('store_attr', 'store_sub', 'del')]
                 cells = [e for e in stores if e.kind == 'store_sub']
                 casts = [e for e in stores if e.kind == 'store_attr']
+                def _is_cells(e):
+                    # self.values / self._values, or the very object that was last stored into self._values (a local name shared with the attribute:
+                    # `self._values = values = _maybe_cast_type(...)`; the stale-alias events above cover a name bound before the attribute was replaced)
+                    if e.a in (('attr', SELF, 'values'), ('attr', SELF, '_values')):
+                        return True
+                    before = [c for c in casts if p.events.index(c) < p.events.index(e)]
+                    return bool(before) and before[-1].a == SELF and before[-1].b == '_values' and before[-1].c == e.a
                 other = [e for e in stores if e.kind == 'del' or (e.kind == 'store_attr' and (e.a != SELF or e.b != '_values'))
-                         or (e.kind == 'store_sub' and e.a not in (('attr', SELF, 'values'), ('attr', SELF, '_values')))]
+                         or (e.kind == 'store_sub' and not _is_cells(e))]
                 if other:
                     ctx.violated('R5', fi, other[0].node, 'a cell writer may only store into self._values / self.values[...]', node=other[0].node)
                     continue
